@@ -542,7 +542,7 @@ def slOk (tok : String) : Bool :=
    | none => false
    | some ids => !List.isEmpty ids && (List.zip ids (List.drop 1 ids)).all (fun p => p.1 < p.2))
 
-def handle : List String → String
+def handleCore : List String → String
   | "run" :: mode :: dm :: g :: s :: blocks :: tgts :: rcpts :: scripts :: delays :: flag =>
     let r : Option String := do
       let m ← if mode == "smtp" then some Mode.smtp else if mode == "lmtp" then some Mode.lmtp else none
@@ -576,12 +576,12 @@ def handle : List String → String
   | "multi" :: dm :: g :: tgts :: sources :: sched :: sl :: d :: "//" :: rest =>
     -- round 10: `sl=<ids>` names the checks that are real stateless checks (check.RegisterStatelessCheck);
     -- to the model a check is its verdicts, whatever implements it: the token is validated and dropped
-    if slOk sl then handle ("multi" :: dm :: g :: tgts :: sources :: sched :: d :: "//" :: rest) else "bad-op"
+    if slOk sl then handleCore ("multi" :: dm :: g :: tgts :: sources :: sched :: d :: "//" :: rest) else "bad-op"
   | "multi" :: dm :: g :: tgts :: sources :: sched :: d :: "//" :: rest =>
-    if slOk d then handle ("multi" :: dm :: g :: tgts :: sources :: sched :: "//" :: rest) else
+    if slOk d then handleCore ("multi" :: dm :: g :: tgts :: sources :: sched :: "//" :: rest) else
     let r : Option String := do
       let loads ← parseDirs d
-      let out := handle ("multi" :: dm :: g :: tgts :: sources :: sched :: "//" :: rest)
+      let out := handleCore ("multi" :: dm :: g :: tgts :: sources :: sched :: "//" :: rest)
       if out == "bad-op" then none else
       pure (if loads then out else "load=refused")
     r.getD "bad-op"
@@ -627,5 +627,22 @@ def handle : List String → String
       | _, _ => "bad-op"
     | _, _ => "bad-op"
   | _ => "bad-op"
+
+
+
+/-- round 11: `g=<id>.<id>…` (multi ops) names the checks that the configuration text lists in a named
+`checks` block which the scopes reference with `check &name`; to the model a scope is its list of checks,
+however the configuration spells it: the token (distinct check ids) is validated and dropped. -/
+def grpOk (tok : String) : Bool :=
+  match (((tok.drop 2).toString.splitOn ".").mapM String.toNat? : Option (List Nat)) with
+  | none => false
+  | some ids => !List.isEmpty ids && ids.Nodup
+
+def handle : List String → String
+  | "multi" :: dm :: g :: tgts :: sources :: sched :: grp :: rest =>
+    if grp.startsWith "g=" then
+      (if grpOk grp then handleCore ("multi" :: dm :: g :: tgts :: sources :: sched :: rest) else "bad-op")
+    else handleCore ("multi" :: dm :: g :: tgts :: sources :: sched :: grp :: rest)
+  | toks => handleCore toks
 
 end Driver.C06
